@@ -1437,6 +1437,11 @@ func (ro *RedisOutput) bisyncStartPoint(ctx context.Context, runIDs []string) (S
 		return sp, 0, false, nil
 	}
 	rootStartPoint := StartPoint{DbId: dbID, RunId: cpi.RunId, Offset: cpi.Offset}
+	// GetCheckpoint leaves a standalone connection in the last database it visited :
+	// the recovery state (latest, frontier, journal) is written through fresh connections, into database 0
+	if err := redispkg.SelectDB(cli, 0); err != nil {
+		return sp, 0, false, err
+	}
 
 	slots := ro.bisyncRecoverySlots()
 	if ro.cfg.ReplayMode.UsesFrontier() {
